@@ -197,10 +197,16 @@ bool kirsch_bounded_kfifo_queue<T, Policies...>::try_push(value_type value) {
         if (segment_empty(head_old)) {
           // increment head by k
           marked_idx new_head((head_old.get() + _k) % _queue_size, head_old.mark() + 1);
-          _head.compare_exchange_strong(head_old, new_head, std::memory_order_relaxed);
+          if (!_head.compare_exchange_strong(head_old, new_head, std::memory_order_relaxed)) {
+            // head has changed (it might only have got a new tag, i.e., the queue can still be full)
+            // -> tail must not be moved onto the head segment; start over
+            continue;
+          }
         } else if (head_old == _head.load(std::memory_order_relaxed)) {
           // queue is full
           return false;
+        } else {
+          continue;
         }
       }
       // increment tail by k
@@ -290,10 +296,21 @@ bool kirsch_bounded_kfifo_queue<T, Policies...>::committed(const marked_idx& tai
     return true;
   }
 
-  // head has to be read before tail: head can only move towards (the then current) tail, so with
-  // this order a segment that head has already left is never mistaken for a valid one.
+  // The decision below needs a consistent snapshot of head and tail: with a stale tail a segment
+  // that head has already left can be mistaken for a valid one (the element would be lost), with a
+  // stale head a valid element can be mistaken for an invalid one (it would be taken back and the
+  // hole it leaves makes the queue report "full" too early).  Head carries a version tag, so
+  // re-reading it tells us whether it has changed while we read tail.
   marked_idx head_current = _head.load(std::memory_order_relaxed);
   marked_idx tail_current = _tail.load(std::memory_order_relaxed);
+  for (;;) {
+    marked_idx head_check = _head.load(std::memory_order_relaxed);
+    if (head_check == head_current) {
+      break;
+    }
+    head_current = head_check;
+    tail_current = _tail.load(std::memory_order_relaxed);
+  }
   if (in_valid_region(tail_old.get(), tail_current.get(), head_current.get())) {
     return true;
   }
@@ -320,8 +337,9 @@ bool kirsch_bounded_kfifo_queue<T, Policies...>::committed(const marked_idx& tai
 template <class T, class... Policies>
 bool kirsch_bounded_kfifo_queue<T, Policies...>::queue_full(const marked_idx& head_old,
                                                             const marked_idx& tail_old) const {
+  // only the index of head is relevant here - committed() changes the tag of head without moving it
   return (((tail_old.get() + _k) % _queue_size) == head_old.get() &&
-          (head_old == _head.load(std::memory_order_relaxed)));
+          (head_old.get() == _head.load(std::memory_order_relaxed).get()));
 }
 
 template <class T, class... Policies>
